@@ -381,4 +381,98 @@ theorem radix2New_cases (P : Params F) (hP : P.WF) (n : Nat) :
 
 end Field
 
+/-! ## cosets, elements, `GeneralEvaluationDomain::new` -/
+section Field
+variable {F : Type} [Field F] [DecidableEq F]
+
+theorem mkDom_offsets (g : F) (N lg : Nat) :
+    (mkDom g N lg).offset = 1 ∧ (mkDom g N lg).offsetInv = 1 ∧ (mkDom g N lg).offsetPowSize = 1 :=
+  ⟨rfl, rfl, rfl⟩
+
+theorem getCoset_zero (d : Domain F) : getCoset d 0 = none := by
+  simp [getCoset, inv?_zero]
+
+theorem getCoset_ne (d : Domain F) (hlt : d.size < 2 ^ 64) {h : F} (hh : h ≠ 0) :
+    getCoset d h = some { d with offset := h, offsetInv := h⁻¹, offsetPowSize := h ^ d.size } := by
+  simp only [getCoset, inv?_ne hh, pow_eq _ _ hlt]
+
+theorem getCoset_good (d : Domain F) (hd : d.Good) {h : F} (hh : h ≠ 0) :
+    ∃ d', getCoset d h = some d' ∧ d'.Good ∧ d'.size = d.size ∧
+      d'.logSizeOfGroup = d.logSizeOfGroup ∧ d'.groupGen = d.groupGen ∧
+      d'.groupGenInv = d.groupGenInv ∧ d'.sizeInv = d.sizeInv ∧
+      d'.sizeAsFieldElement = d.sizeAsFieldElement ∧
+      d'.offset = h ∧ d'.offsetInv * h = 1 ∧ d'.offsetPowSize = h ^ d.size := by
+  refine ⟨_, getCoset_ne d hd.size_lt hh, ⟨hd.size_pos, hd.size_lt, hd.sizeF, hd.sizeInv,
+    hd.gen_order, hd.genInv, inv_mul_cancel₀ hh, rfl⟩, rfl, rfl, rfl, rfl, rfl, rfl, rfl,
+    inv_mul_cancel₀ hh, rfl⟩
+
+theorem element_eq (d : Domain F) (i : Nat) (hi : i < 2 ^ 64) :
+    element d i = d.offset * d.groupGen ^ i := by
+  unfold element
+  simp only [pow_eq _ _ hi]
+  by_cases h : d.offset = 1
+  · simp [h]
+  · simp only [ne_eq, h, not_false_eq_true, if_true]; ring
+
+theorem elementsAux_eq (g : F) (n : Nat) : ∀ cur : F,
+    elementsAux g n cur = (List.range n).map (fun i => cur * g ^ i) := by
+  induction n with
+  | zero => intro cur; rfl
+  | succ n ih =>
+    intro cur
+    rw [elementsAux, ih, List.range_succ_eq_map, List.map_cons, List.map_map]
+    simp only [pow_zero, mul_one, List.cons.injEq, true_and]
+    apply List.map_congr_left
+    intro i _
+    simp only [Function.comp, Nat.succ_eq_add_one, pow_succ]; ring
+
+theorem elements_eq (d : Domain F) :
+    elements d = (List.range d.size).map (fun i => d.offset * d.groupGen ^ i) :=
+  elementsAux_eq _ _ _
+
+theorem elements_eq_map_element (d : Domain F) (hlt : d.size ≤ 2 ^ 64) :
+    elements d = (List.range d.size).map (element d) := by
+  rw [elements_eq]
+  apply List.map_congr_left
+  intro i hi
+  rw [element_eq d i (lt_of_lt_of_le (List.mem_range.1 hi) hlt)]
+
+theorem elements_length (d : Domain F) : (elements d).length = d.size := by
+  rw [elements_eq]; simp
+
+/-- `GeneralEvaluationDomain::new` = the radix-2 domain when that exists, else the mixed one
+    (tried only when the field has a small subgroup) -/
+theorem generalNew_eq (P : Params F) (n : Nat) :
+    generalNew P n =
+      match radix2New P n with
+      | .panic => .panic
+      | .ok (some d) => .ok (some (.radix2 d))
+      | .ok none =>
+        if P.smallBase.isSome then
+          (match mixedNew P n with
+           | .panic => .panic
+           | .ok (some d) => .ok (some (.mixedRadix d))
+           | .ok none => .ok none)
+        else .ok none := rfl
+
+theorem generalNew_of_radix2_some (P : Params F) (n : Nat) (d : Domain F)
+    (h : radix2New P n = .ok (some d)) : generalNew P n = .ok (some (.radix2 d)) := by
+  simp only [generalNew, h]
+
+theorem generalNew_of_radix2_none (P : Params F) (n : Nat) (h : radix2New P n = .ok none) :
+    generalNew P n = (match mixedNew P n with
+      | .panic => .panic
+      | .ok (some d) => .ok (some (.mixedRadix d))
+      | .ok none => .ok none) := by
+  simp only [generalNew, h]
+  cases hb : P.smallBase with
+  | none => simp [mixedNew, hb]
+  | some q =>
+    simp only [Option.isSome_some, if_true]
+    cases mixedNew P n with
+    | panic => rfl
+    | ok o => cases o <;> rfl
+
+end Field
+
 end Ark.Fft
